@@ -96,6 +96,23 @@ def monitor(c, o):
         if f["V"] != f["RV"]:
             return ("coordinator-order", f"N={n} B={b} P={p} rf={rf}: manager {m} knows members {f['A']} and orders coordinators {f['V']}, reference {f['RV']}; history {t[6] if len(t) > 6 else ''}")
         states[m] = f
+    # which members a manager knows is decided by what it heard, not by what it reports: without ownership responses in the
+    # history, manager m knows itself plus every peer whose last event at m is a connect or a heartbeat (not a disconnect / time-out)
+    script = t[6] if len(t) > 6 else ""
+    evs = [e.split(".") for e in script.split(",") if e]
+    k = len(t[5].split(",")) if len(t) > 5 else 0
+    if evs and all(len(e) == 3 and e[0] in "chxdt" and e[1].isdigit() and e[2].isdigit() for e in evs):
+        heard = {m: {int(m)} for m in states}
+        for kind_, m_, j_ in evs:
+            m_, j_ = int(m_), int(j_)
+            if str(m_) not in heard or j_ >= k or j_ == m_: continue
+            if kind_ in "chx": heard[str(m_)].add(j_)
+            else: heard[str(m_)].discard(j_)
+        for m, f in states.items():
+            known = {int(x.split("/")[0]) for x in f["A"].strip("[]").split(",") if x}
+            if known != heard[m]:
+                return ("membership", f"N={n} B={b} P={p} rf={rf}: after the history {script} manager {m} heard from peers {sorted(heard[m])} last by connect/heartbeat but knows members {sorted(known)}: "
+                        f"two managers hearing the same live members no longer hold the same replica sets")
     ms = sorted(states)
     for x in ms:
         for y in ms:
